@@ -242,8 +242,11 @@ func (r *rec) grav(shard, nshards int, full bool) {
 	hst, cap, cont := rk.VerifStores()
 	var bonuses []int
 	if full {
+		// every bonus near zero and near the clamp, a grid in between (the stored value h runs over everything)
 		for b := -1100; b <= 1100; b++ {
-			bonuses = append(bonuses, b)
+			if b%20 == 0 || (b >= -40 && b <= 40) || b <= -1000 || b >= 1000 {
+				bonuses = append(bonuses, b)
+			}
 		}
 	} else {
 		for _, b := range []int{-32768, -20000, -2000, -1300, -1245, -1025, -1024, -1023, -512, -100, -17, -1, 0, 1, 17, 100, 512, 1023, 1024, 1025, 1245, 1300, 2000, 20000, 32767} {
